@@ -42,6 +42,7 @@ def program():
         "negloop/1": [clause(C("negloop", X), and_(call(C("flat", X)), not_(call(C("loop", X)))))],
         "fa/1": [clause(C("fa", X), call(C("findall", Y, C("down", Y), X)))],
         "mix/2": [clause(C("mix", X, Y), conj(call(C("flat", X)), call(C("down", Y))))],
+        "wide/2": [clause(C("wide", A("done"), V(0)), call(C("=", V(0), V(0)))), clause(C("wide", A("again"), V(900)))],
     }
 
 
@@ -53,6 +54,8 @@ def queries(tier):
         L.append((C("len", lst([A("x")] * n), V(0)), 1, 0))
         L.append((C("down", s(n)), 0, 0))
     L.append((C("fa", V(0)), 1, 3))
+    # a dynamic-fact-like structure unification: an early argument binds a variable, a later one is deep
+    L.append((C("wide", V(0), s(40)), 1, 0))
     return L
 
 
@@ -187,7 +190,7 @@ def family(chk, tier, seed, only=None):
     # 2. reference answer sequences from the machine
     qs = queries(tier)
     if only:
-        qs = qs[:only]
+        qs = [qs[i] for i in only if -len(qs) <= i < len(qs)] if isinstance(only, (list, tuple)) else qs[:only]
     steps = [[{"op": "load", "e": 1, "script": "P", "ow": True}]]
     for i, (g, qnv, k) in enumerate(qs):
         steps.append([{"op": "solve", "e": 1, "r": i + 1, "goal": g, "qnv": qnv, "k": k}])
